@@ -295,7 +295,79 @@ def wide_case(ctx: Ctx, stream: str, i: int) -> None:
     ctx.case(f'wide:{kind}:{ang.tolist()}:{cfg["data_dtype"]}', True, sample={'wide': cfg})
 
 
+def dtype_case(ctx: Ctx, stream: str, i: int) -> None:
+    """Stokes data of other dtypes than float32: complex64 (the operators are real matrices and act complex-linearly:
+    real and imaginary parts are transformed separately, the result is complex), float16 / bfloat16 (every component
+    comes back in the dtype it had) — values against the Mueller matrix, dtypes against the declared structure"""
+    from furax.landscapes import StokesPyTree
+    from furax.operators.hwp import HWPOperator
+    from furax.operators.polarizers import LinearPolarizerOperator
+    from furax.operators.qu_rotations import QURotationOperator
+    rng = ctx.rng(stream, i)
+    kind = rng.choice(['QU', 'IQU', 'IQUV'])
+    nsamp = rng.choice([2, 3])
+    shape = (nsamp,)
+    cls = StokesPyTree.class_for(kind)
+    data_dt = [jnp.complex64, jnp.float16, jnp.bfloat16, jnp.complex64][i % 4]
+    cplx = data_dt == jnp.complex64
+    st = cls.structure_for(shape, data_dt)
+    ang = np.array([rng.choice([0.0, 0.5, -0.25, 1.0, 0.785398, -2.0]) for _ in range(nsamp)], dtype=np.float32)
+    comps = [np.array([rng.choice([-3, -2, -1, 1, 2, 3]) + (1j * rng.choice([-2, -1, 1, 2, 3]) if cplx else 0) for _ in range(nsamp)])
+             for c in range(len(kind))]
+    x = cls(*[jnp.asarray(c, dtype=data_dt) for c in comps])
+    cfg = {'kind': kind, 'angles': ang.tolist(), 'data_dtype': str(np.dtype(data_dt))}
+    rot = [restrict(mueller_rot(float(a)), kind) for a in ang]
+    hw = restrict(M_HWP, kind)
+    ops = [('R', lambda: QURotationOperator(jnp.asarray(ang), st), rot),
+           ('R.T', lambda: QURotationOperator(jnp.asarray(ang), st).T, [m.T for m in rot]),
+           ('HWP', lambda: HWPOperator(st), [hw] * nsamp),
+           ('HWP.create', lambda: HWPOperator.create(shape, data_dt, kind, angles=jnp.asarray(ang)),
+            [rot[t].T @ hw @ rot[t] for t in range(nsamp)]),
+           ('Polarizer.create', lambda: LinearPolarizerOperator.create(shape, data_dt, kind, angles=jnp.asarray(ang)),
+            [pol_row(kind) @ rot[t] for t in range(nsamp)])]
+    xv = np.array(comps)
+    tol = 1e-4 if cplx else 6e-2
+    # parameters no wider than the data (wider angles legitimately promote Q and U): half-precision data, half-precision angles
+    jang = jnp.asarray(ang) if cplx else jnp.asarray(ang, dtype=data_dt)
+    ops = [(l, (lambda mk_=mk_: mk_()), m) for l, mk_, m in [
+        ('R', lambda: QURotationOperator(jang, st), rot), ('R.T', lambda: QURotationOperator(jang, st).T, [m.T for m in rot]),
+        ('HWP', lambda: HWPOperator(st), [hw] * nsamp),
+        ('HWP.create', lambda: HWPOperator.create(shape, data_dt, kind, angles=jang), [rot[t].T @ hw @ rot[t] for t in range(nsamp)]),
+        ('Polarizer.create', lambda: LinearPolarizerOperator.create(shape, data_dt, kind, angles=jang),
+         [pol_row(kind) @ rot[t] for t in range(nsamp)])]]
+    for label, mk, mats in ops:
+        for reduced in (False, True):
+            st_, op = safe(lambda: mk().reduce() if reduced else mk())
+            if st_ != 'ok':
+                ctx.fail(stream, i, f'dtype-raises:{label}:{st_}', str(op)[:150], cfg)
+                continue
+            st2, y = safe(op.mv, x)
+            if st2 != 'ok':
+                ctx.fail(stream, i, f'dtype-mv-raises:{label}:{st2}', str(y)[:150], cfg)
+                continue
+            leaves = jax.tree.leaves(y)
+            declared = jax.tree.leaves(op.out_structure())
+            if [l.dtype for l in leaves] != [d.dtype for d in declared] or (not label.startswith('Polarizer') and
+                                                                               any(l.dtype != data_dt for l in leaves)):
+                ctx.fail(stream, i, f'mueller-dtype:{label}{":reduced" if reduced else ""}', f'{label} on {cfg["data_dtype"]} data '
+                         f'returns dtypes {[str(l.dtype) for l in leaves]}, declared {[str(d.dtype) for d in declared]}', cfg)
+                break
+            vals = [np.asarray(l).astype(np.complex128 if cplx else np.float64) for l in leaves]
+            for t in range(nsamp):
+                want = np.asarray(mats[t]) @ xv[:, t]
+                got = np.array([l[t] for l in vals])
+                if got.shape != want.shape or not np.allclose(got, want, rtol=tol, atol=tol):
+                    ctx.fail(stream, i, f'mueller-{"complex" if cplx else "low-precision"}-data:{label}{":reduced" if reduced else ""}',
+                             f'{label} on {cfg["data_dtype"]} data returns {got.tolist()}, the Mueller matrix gives {want.tolist()}', cfg)
+                    break
+    ctx.case(f'dtype:{kind}:{cfg["data_dtype"]}:{ang.tolist()}:{i}', True, sample=cfg)
+    ctx.count('dtype:' + cfg['data_dtype'])
+
+
 def run(ctx: Ctx) -> None:
+    for i in range(40 if ctx.tier == 'quick' else 600):
+        if ctx.want('dtype', i):
+            dtype_case(ctx, 'dtype', i)
     n = 40 if ctx.tier == 'quick' else 800
     for i in range(n):
         if ctx.want('mueller', i):
